@@ -56,6 +56,11 @@ def make_plan(rng, tier, index):
         plan["chain"][0]["total_episodes"] = plan["cfg"]["total_episodes"]
     elif mode == "episodes" and ad.has_total_episodes:
         plan["chain"][0]["total_episodes"] = rng.choice([1, 1, 2, 3])
+        if rng.random() < 0.4:
+            # the step budget runs out first, in the middle of an episode, although an episode limit is set
+            E = plan["chain"][0]["total_episodes"]
+            sc = plan["env"]["script"]
+            sc[min(E, len(sc)) - 1]["len"] = T + rng.choice([3, 10])
     elif mode == "resume" and ad.has_global_step:
         cuts = sorted({rng.randint(1, T - 1) for _ in range(rng.choice([1, 2]))})
         plan["chain"] = [{"total_timesteps": c, "total_episodes": None} for c in cuts] + [{"total_timesteps": T, "total_episodes": None}]
